@@ -69,6 +69,24 @@ pub fn opt_docs(g: &Grammar, count: usize) -> Vec<CDoc> {
     out
 }
 
+/// every element with an open-ended value list, with 0, 3, 4, 5, 8 and 17 entries (the other families use 1 or 2)
+pub fn seq_len_docs(g: &Grammar) -> Vec<CDoc> {
+    let mut gen = Gen::new(g);
+    let mut out = Vec::new();
+    for t in tags(g) {
+        if !gen.path.contains_key(&t) || !g.elem(&t).items.iter().any(|i| matches!(i, vcore::grammar::Item::Seq { .. })) {
+            continue;
+        }
+        let chain = gen.path.get(&t).cloned().unwrap_or_default();
+        let v = gen.version_for(&chain, &[]);
+        for n in [0usize, 3, 4, 5, 8, 17] {
+            let (doc, path) = gen.carrier_v(&t, v, n);
+            out.push(CDoc { label: format!("carrier({t}) with {n} list entries"), doc, path, deviations: 0 });
+        }
+    }
+    out
+}
+
 /// repeatable named sub-blocks whose name need not be unique: an INSTANCE has one OVERWRITE per axis of a component, all of them
 /// carry the component's name and differ in the axis number. Three blocks of one name, and two names interleaved.
 pub fn same_name_docs(g: &Grammar) -> Vec<CDoc> {
